@@ -401,3 +401,42 @@ Proof.
   intros keys kv k t ND HIn. unfold tr_obs, kvs.
   apply (lookup_map_key' kv (fun k0 t0 => if memk k0 keys then ttranspose t0 else t0) k t tempty ND HIn).
 Qed.
+
+(* ================= the regenerated arithmetic, connected to the model's functions ================= *)
+(* update() rolls the window by -shift = one frame: fs_push drops exactly that many frames *)
+Definition frames_rolled (f : Z) : nat := Z.to_nat (Z.opp (update_shift f) / f).
+Lemma frag_roll_is_one_frame : forall f, (0 < f)%Z -> frames_rolled f = 1.
+Proof.
+  intros f H. unfold frames_rolled. rewrite (frag_update_shift f). rewrite Z.opp_involutive. rewrite Z.div_same by lia. reflexivity.
+Qed.
+Theorem fs_push_is_regenerated_roll : forall (F : Type) (w : list F) (o : F) (f : Z),
+  (0 < f)%Z -> fs_push w o = skipn (frames_rolled f) w ++ [o].
+Proof.
+  intros F w o f H. rewrite frag_roll_is_one_frame by exact H. unfold fs_push. destruct w; reflexivity.
+Qed.
+
+Lemma set_last_nonempty : forall s d, s <> [] -> set_last d s <> [].
+Proof. intros [|x [|y s]] d H; cbn; congruence. Qed.
+Lemma last_cons_nonempty : forall (x : nat) l d, l <> [] -> last (x :: l) d = last l d.
+Proof. intros x [|y l] d H; [congruence|reflexivity]. Qed.
+Lemma last_set_last : forall s d, s <> [] -> last (set_last d s) 0 = d.
+Proof.
+  induction s as [|x s IH]; intros d H; [congruence|].
+  destruct s as [|y s]; [reflexivity|].
+  change (set_last d (x :: y :: s)) with (x :: set_last d (y :: s)).
+  rewrite last_cons_nonempty by (apply set_last_nonempty; discriminate).
+  apply IH. discriminate.
+Qed.
+
+(* the stacked axis of the declared shape is the regenerated `stacked_shape[repeat_axis] *= n_stack` *)
+Theorem stacked_shape_is_regenerated_dim : forall ts s,
+  ts <> [] -> s <> [] -> Forall (fun t => t_shape t = s) ts ->
+  Z.of_nat (hd 0 (t_shape (tcat true ts))) = stacked_dim (Z.of_nat (hd 0 s)) (Z.of_nat (length ts)) /\
+  Z.of_nat (last (t_shape (tcat false ts)) 0) = stacked_dim (Z.of_nat (last s 0)) (Z.of_nat (length ts)).
+Proof.
+  intros ts s NE NS H. rewrite !frag_stacked_dim_model.
+  rewrite (stacked_space_shape true ts s NE H), (stacked_space_shape false ts s NE H).
+  split.
+  - destruct s; [congruence|]. reflexivity.
+  - rewrite last_set_last by exact NS. reflexivity.
+Qed.
